@@ -1,6 +1,7 @@
 import NitroVerif.Lemmas.Shape
 import NitroVerif.Lemmas.ShapeInv
 import NitroVerif.Lemmas.TypeNoPanic
+import NitroVerif.Lemmas.ValueNoPanic
 /-!
 # C08 — no input text can make the toolchain panic (parser part: grammar ⇒ builder preconditions)
 
@@ -99,6 +100,24 @@ theorem buildType_no_panic (fuel : Nat) (r : RuleId) (input : List Char) (ps : L
   obtain ⟨p, hp, hqp⟩ := mem_flatList hq
   exact (buildType_noPanic ctx bfuel).1 q ((parse_deepOk gList fuel r input ps h p hp).sub q hqp) hr
 
+/-- More closed instances: for ANY input text, the value, string, argument and directive builders (builder/value.rs,
+    base.rs, directives.rs: 14 matcher / dispatch sites, mutually recursive through lists and objects) applied to
+    any pair of their rule anywhere in the parse tree cannot end in a matcher or dispatch panic (`Safe`): the only
+    error values left in the model are the text-dependent sites `TextPanic` (escape decoding — discharged after
+    validation by `validated_escape_decodes` — `split_at`, `chars().next()`) and the model's own depth bound. -/
+theorem value_builders_no_matcher_panic (fuel : Nat) (r : RuleId) (input : List Char) (ps : List Pair)
+    (h : Peg.parse gList fuel r input = .pairs ps) (ctx : Ctx) (bfuel : Nat) :
+    ∀ q ∈ flatList ps,
+      (q.rule = R.Value → Safe (buildValue ctx bfuel q)) ∧
+      (q.rule = R.StringValue → Safe (buildStringValue ctx q)) ∧
+      (q.rule = R.Arguments → Safe (buildArguments ctx bfuel q)) ∧
+      (q.rule = R.Directives → Safe (buildDirectives ctx bfuel q)) := by
+  intro q hq
+  obtain ⟨p, hp, hqp⟩ := mem_flatList hq
+  have hd := (parse_deepOk gList fuel r input ps h p hp).sub q hqp
+  exact ⟨safe_buildValue ctx bfuel q hd, safe_buildStringValue ctx q hd, safe_buildArguments ctx bfuel q hd,
+    safe_buildDirectives ctx bfuel q hd⟩
+
 example : ∃ e ∈ builderTable, ∃ items, e.pat = .parts items ∧ items.length = 2 :=
   ⟨builderTable[4], List.getElem_mem _, _, rfl, rfl⟩
 
@@ -177,7 +196,8 @@ theorem parse_no_panic : ∀ input, (parseOp input).isPanic = false ∧ (parseTs
   -- (`parsed_pairs_match_patterns`), i.e. the panic classes partsExpected / onlyChildNone / onlyChildMany /
   -- allChildren / unexpectedRule (dispatch arms) / implementsHead / implementsItem cannot occur on a pair of the
   -- subject rule, and the `\u` arms cannot panic after validation (`validated_escape_decodes`).
-  -- For `build_type` the composition is done (`buildType_no_panic`).
+  -- For `build_type` and for the value / string / argument / directive builders the composition is done
+  -- (`buildType_no_panic`, `value_builders_no_matcher_panic`).
   -- NOT proved: (a) the same walk through the other ~30 builder functions of Build.lean that composes these facts
   -- into the closed statement above (each builder is only ever handed a pair of its subject rule because the matchers check
   -- the rules — argued, not formalised); (b) the panic sites that depend on the TEXT of a pair rather than on
